@@ -67,3 +67,14 @@ CORPUS = [
 CORPUS += [
     M("encrypted-payload-cut", L, "        return payload[2:].tobytes()", "        return payload[2:-1].tobytes()"),
 ]
+# round 7: _flush empties the queue (C06.c); which credentials are offered (C06.e)
+CORPUS += [
+    M("flush-takes-one", L, "        try:\n            while True:\n                self._queue.get_nowait()\n        except asyncio.QueueEmpty:\n            pass\n",
+      "        if not self._queue.empty():\n            self._queue.get_nowait()\n"),
+    M("flush-bounded", L, "        try:\n            while True:\n                self._queue.get_nowait()\n        except asyncio.QueueEmpty:\n            pass\n",
+      "        try:\n            for _ in range(4):\n                self._queue.get_nowait()\n        except asyncio.QueueEmpty:\n            pass\n"),
+    M("n-flush-while-not-empty", L, "        try:\n            while True:\n                self._queue.get_nowait()\n        except asyncio.QueueEmpty:\n            pass\n",
+      "        while not self._queue.empty():\n            self._queue.get_nowait()\n", "S"),
+    M("stored-token-not-used", L, "            token = self._token\n            key = self._key\n", "            key = self._key\n"),
+    M("hex-key-not-converted", L, "            token = convert(token)\n            key = convert(key)\n", "            token = convert(token)\n"),
+]
